@@ -11,6 +11,8 @@ package props
 import (
 	"encoding/json"
 	"fmt"
+	sdkvesting "github.com/cosmos/cosmos-sdk/x/auth/vesting/types"
+	vestingtypes "github.com/haqq-network/haqq/x/vesting/types"
 	"math/big"
 	"sort"
 	"testing"
@@ -636,6 +638,10 @@ type C03OrderOp struct {
 	NewBlock bool   `json:"new_block"`
 	Mixed    bool   `json:"mixed"`  // eth multi: messages alternate between the two signers (each with its own nonce)
 	Create   int    `json:"create"` // eth multi: 1-based index of the message that is a contract creation (0 = none)
+	// Foreign: eth multi: 1-based index of a message whose signature does not commit to this chain (0 = none):
+	// ForeignKind 0 = unprotected (pre-EIP-155) legacy signature, 1 = signed for another chain id
+	Foreign     int `json:"foreign,omitempty"`
+	ForeignKind int `json:"foreign_kind,omitempty"`
 }
 
 type C03OrderCase struct {
@@ -648,7 +654,7 @@ func genC03Order(t *rapid.T) C03OrderCase {
 	for i := 0; i < n; i++ {
 		op := C03OrderOp{}
 		op.Signer = rapid.IntRange(0, 1).Draw(t, "signer")
-		op.Kind = rapid.SampledFrom([]string{"eth-legacy", "eth-dynamic", "cosmos-direct", "eip712-web3"}).Draw(t, "kind")
+		op.Kind = rapid.SampledFrom([]string{"eth-legacy", "eth-legacy", "eth-dynamic", "eth-dynamic", "cosmos-direct", "cosmos-direct", "eip712-web3", "eip712-web3", "vest-convert"}).Draw(t, "kind")
 		op.Off = rapid.SampledFrom([]int{0, 0, 0, 0, 1, 2, -1, -2}).Draw(t, "off")
 		op.NEth = rapid.SampledFrom([]int{1, 1, 2, 3}).Draw(t, "neth")
 		op.DupInTx = rapid.IntRange(0, 5).Draw(t, "dup") == 0
@@ -659,6 +665,13 @@ func genC03Order(t *rapid.T) C03OrderCase {
 		op.Mixed = rapid.IntRange(0, 3).Draw(t, "mixed") == 0
 		if rapid.IntRange(0, 3).Draw(t, "create") == 0 {
 			op.Create = 1 + rapid.IntRange(0, 2).Draw(t, "create-idx")
+		}
+		if rapid.IntRange(0, 5).Draw(t, "foreign") == 0 {
+			op.Foreign = 1 + rapid.IntRange(0, 2).Draw(t, "foreign-idx")
+			op.ForeignKind = rapid.IntRange(0, 1).Draw(t, "foreign-kind")
+			if op.NEth < 2 {
+				op.NEth = 2 + rapid.IntRange(0, 1).Draw(t, "foreign-neth")
+			}
 		}
 		c.Ops = append(c.Ops, op)
 	}
@@ -696,6 +709,8 @@ func runC03Order(st *ev.Stats, c C03OrderCase) string {
 		wantOK := false
 		var inc uint64
 		multiSender := map[int]uint64{}
+		converted := -1
+		foreignTx := false
 		signer := op.Signer
 		if op.Replay > 0 && len(history) > 0 {
 			h := history[(op.Replay-1)%len(history)]
@@ -718,6 +733,7 @@ func runC03Order(st *ev.Stats, c C03OrderCase) string {
 					typ = 2
 				}
 				var txs []*ethtypes.Transaction
+				foreign := false
 				incs := map[int]uint64{} // signer -> messages of that signer in this tx
 				allCurrent := true
 				for k := 0; k < op.NEth; k++ {
@@ -742,6 +758,14 @@ func runC03Order(st *ev.Stats, c C03OrderCase) string {
 					if op.Create == k+1 {
 						e.To, e.Value, e.Gas, e.Data = nil, big.NewInt(0), 200000, []byte{0x60, 0x00, 0x60, 0x00, 0xf3} // init code returning empty runtime
 					}
+					if op.Foreign == k+1 {
+						if op.ForeignKind == 0 {
+							e.Type, e.Unprot = 0, true
+						} else {
+							e.ChainID = big.NewInt(54211)
+						}
+						foreign = true
+					}
 					txs = append(txs, txb.SignEth(signers[sg], e))
 				}
 				multiSender = incs
@@ -749,8 +773,22 @@ func runC03Order(st *ev.Stats, c C03OrderCase) string {
 				var err error
 				bz, err = txb.WrapEth(txs...)
 				must(err)
-				wantOK = op.Off == 0 && (!op.DupInTx || multiSender[op.Signer] == 1)
+				wantOK = op.Off == 0 && (!op.DupInTx || multiSender[op.Signer] == 1) && !foreign
+				if foreign {
+					foreignTx = true
+				}
 				inc = multiSender[op.Signer]
+			case "vest-convert":
+				// the signer turns the OTHER account into a vesting account (or adds a grant to it): that account's
+				// sequence must survive, otherwise its old signed transactions become current again
+				other := signers[1-op.Signer]
+				num, _ := txb.AccInfo(n.Ctx(), n.App, a.Addr)
+				lk := sdkvesting.Periods{{Length: 1000, Amount: sdk.NewCoins(sdk.NewCoin(chain.Denom, sdkmath.NewInt(int64(i+1))))}}
+				msg := vestingtypes.NewMsgConvertIntoVestingAccount(a.Addr, other.Addr, n.Header.Time, lk, lk, true, false, nil)
+				bz = txb.CosmosTx(a, txb.Cosmos{Msgs: []sdk.Msg{msg}, Gas: 1500000, Fee: coinsOfGas(1500000, price), ChainID: chain.ChainID, AccNum: num, Seq: nonce})
+				wantOK = op.Off == 0
+				inc = 1
+				converted = 1 - op.Signer
 			default:
 				num, _ := txb.AccInfo(n.Ctx(), n.App, a.Addr)
 				cb := txb.Cosmos{Msgs: []sdk.Msg{banktypes.NewMsgSend(a.Addr, recv.Addr, sdk.NewCoins(sdk.NewCoin(chain.Denom, sdkmath.NewInt(int64(i+1)))))},
@@ -774,6 +812,14 @@ func runC03Order(st *ev.Stats, c C03OrderCase) string {
 		_, seqBefore := txb.AccInfo(n.Ctx(), n.App, signers[signer].Addr)
 		res := n.DeliverTx(bz)
 		_, seqAfter := txb.AccInfo(n.Ctx(), n.App, signers[signer].Addr)
+		if converted >= 0 {
+			if _, sq := txb.AccInfo(n.Ctx(), n.App, signers[converted].Addr); sq != model[converted] {
+				return fail("sequence-changed-by-conversion", fmt.Sprintf("op %d %+v: turning signer %d's account into a vesting account moved its sequence %d -> %d (code %d)", i, op, converted, model[converted], sq, res.Code))
+			}
+			if res.Code == 0 {
+				st.Class("account-converted-into-vesting")
+			}
+		}
 		if op.Replay > 0 && len(history) > 0 {
 			// a replayed tx may only execute if it never executed before AND its sequence is the current one; the model
 			// cannot know the bytes' sequence cheaply, so use the invariant: sequence moves by the tx's own count only
@@ -813,6 +859,14 @@ func runC03Order(st *ev.Stats, c C03OrderCase) string {
 				}
 				model[sg] = sq
 			}
+		} else if foreignTx {
+			// a message whose signature does not commit to this chain makes the whole tx invalid: nobody's sequence moves
+			for sg := range signers {
+				if _, sq := txb.AccInfo(n.Ctx(), n.App, signers[sg].Addr); sq != model[sg] || res.Code == 0 {
+					return fail("foreign-signature-accepted:order:"+op.Kind, fmt.Sprintf("op %d %+v: a tx with a message not signed for this chain was executed: code %d, sequence of signer %d %d -> %d", i, op, res.Code, sg, model[sg], sq))
+				}
+			}
+			st.Class("foreign-signature-in-bundle-rejected")
 		} else if seqAfter != seqBefore || res.Code == 0 {
 			return fail("wrong-sequence-accepted:order:"+op.Kind, fmt.Sprintf("op %d %+v: tx for sequence %+d was executed: seq %d -> %d code %d", i, op, op.Off, seqBefore, seqAfter, res.Code))
 		}
